@@ -242,10 +242,10 @@ Print Assumptions C11_utm_hemisphere.
 
 (** ** 10. The footprint request behind [B] (model of the repaired code)
        buffer: at least [b] pixels along both axes whatever the signs of the
-       resolution; before repair 99d08e4 (max of the signed components) a
+       resolution; before repair b8c684a (max of the signed components) a
        mirrored grid was shrunk instead: refuted statement below.
        densification: 100..10000 points per side, segments shorter than 256
-       pixels up to 2.56 million pixels per side (repair 4ef5f46). *)
+       pixels up to 2.56 million pixels per side (repair e8f8707). *)
 Theorem C11_footprint_buffer_grows :
   forall b rx ry, 0 < b -> ~ rx == 0 -> ~ ry == 0 ->
     0 < footprint_buffer b (rx, ry) /\
